@@ -1,47 +1,8 @@
-import GeoVerif.Proofs.Geocentric
-open GeoVerif GeoVerif.Geocentric GeoVerif.GeocentricProofs
-namespace T
-noncomputable def revFar (X Y Z : ℝ) : Rev ℝ :=
-  let R := Real.sqrt ((X / 2) ^ 2 + (Y / 2) ^ 2)
-  let H := Real.sqrt ((Z / 2) ^ 2 + R ^ 2)
-  ⟨Z / 2 / H, R / H, if R = 0 then 0 else Y / 2 / R, if R = 0 then 1 else X / 2 / R, Real.sqrt (Real.sqrt (X ^ 2 + Y ^ 2) ^ 2 + Z ^ 2)⟩
-
-noncomputable def revSphere (a R Z slam clam : ℝ) : Rev ℝ :=
-  let h0 := Real.sqrt (R ^ 2 + Z ^ 2)
-  let zz := if h0 = 0 then 1 else Z
-  let H := Real.sqrt (zz ^ 2 + R ^ 2)
-  ⟨zz / H, R / H, slam, clam, h0 - a⟩
-
-noncomputable def revGeneral (f R Z slam clam : ℝ) (kk : ℝ × ℝ) : Rev ℝ :=
-  let H := Real.sqrt ((Z / kk.1) ^ 2 + (R / kk.2) ^ 2)
-  ⟨Z / kk.1 / H, R / kk.2 / H, slam, clam, (1 - (1 - f) ^ 2 / kk.1) * Real.sqrt ((kk.1 * R / kk.2) ^ 2 + Z ^ 2)⟩
-
-noncomputable def revSing (a f p Z slam clam : ℝ) : Rev ℝ :=
-  let zz := Real.sqrt ((if f < 0 then p else (f * (2 - f)) ^ 2 - p) / (1 - f) ^ 2)
-  let xx := Real.sqrt (if f < 0 then (f * (2 - f)) ^ 2 - p else p)
-  let H := Real.sqrt (zz ^ 2 + xx ^ 2)
-  ⟨if Z < 0 then -(zz / H) else zz / H, xx / H, slam, clam, -(a * (if f < 0 then 1 else (1 - f) ^ 2) * H / |f * (2 - f)|)⟩
-
-theorem cond_iff (A B : Prop) [Decidable A] [Decidable B] : ((!(decide A && decide B)) = true) ↔ ¬(A ∧ B) := by
-  by_cases hA : A <;> by_cases hB : B <;> simp [hA, hB]
-
-theorem reverse_real (a f maxrad X Y Z : ℝ) :
-    reverse (⟨a, f⟩ : Ell ℝ) maxrad X Y Z =
-      let R := Real.sqrt (X ^ 2 + Y ^ 2)
-      let slam := if R = 0 then 0 else Y / R
-      let clam := if R = 0 then 1 else X / R
-      let p0 := (R / a) ^ 2
-      let q0 := (1 - f) ^ 2 * (Z / a) ^ 2
-      let r := (p0 + q0 - (f * (2 - f)) ^ 2) / 6
-      let p := if f < 0 then q0 else p0
-      let q := if f < 0 then p0 else q0
-      if maxrad < Real.sqrt (R ^ 2 + Z ^ 2) then revFar X Y Z
-      else if (f * (2 - f)) ^ 2 = 0 then revSphere a R Z slam clam
-      else if (!(decide ((f * (2 - f)) ^ 2 * q = 0) && decide (r ≤ 0))) = true then revGeneral f R Z slam clam (vermK ⟨a, f⟩ p q r (decide (f < 0)))
-      else revSing a f p Z slam clam := by
-  unfold reverse
-  simp only [e4a, e2m, e2a, e2, sq_real, sqrt_real, hypot_real, ltb_real, leb_real, eqb_real, lit_real, ofNat_real, abs_real,
-    decide_eq_true_eq]
-  push_cast
-  rfl
-end T
+import GeoVerif.Props.C07
+open GeoVerif.Props.C07
+#print axioms reverse_closes
+#print axioms reverse_height_least
+#print axioms reverse_farfield_bound
+#print axioms reverseM_ranges
+#print axioms reverseM_frame_is_enu
+#check @reverse_height_least
